@@ -173,10 +173,49 @@ class Callback:
         return f"<callback {self.name}>"
 
 
+class FieldDict(dict):
+    """Instance dictionary that lets the *harness* address state fields by their canonical names (`_links`, `_vertices`, ...)
+    when the tree under analysis has renamed them: canonical name -> actual name (discovered by role, sa.harness.discover_fields).
+    The evaluator itself always uses the names written in the source."""
+    __slots__ = ("alias",)
+
+    def __init__(self, alias):
+        super().__init__()
+        self.alias = alias
+
+    def __getitem__(self, k):
+        return dict.__getitem__(self, self.alias.get(k, k))
+
+    def __setitem__(self, k, v):
+        dict.__setitem__(self, self.alias.get(k, k), v)
+
+    def __delitem__(self, k):
+        dict.__delitem__(self, self.alias.get(k, k))
+
+    def __contains__(self, k):
+        return dict.__contains__(self, self.alias.get(k, k))
+
+    def get(self, k, d=None):
+        return dict.get(self, self.alias.get(k, k), d)
+
+    def pop(self, k, *d):
+        return dict.pop(self, self.alias.get(k, k), *d)
+
+
+FIELD_ALIASES: list = []   # [(class value, {canonical: actual})], most specific first; empty = no renamed state field
+
+
+def _fields_for(cls):
+    for c, alias in FIELD_ALIASES:
+        if c in cls.mro:
+            return FieldDict(alias)
+    return {}
+
+
 class Obj:
     def __init__(self, cls, name=None, fields=None):
         self.cls, self.name = cls, name
-        self.fields: dict = fields if fields is not None else {}
+        self.fields: dict = fields if fields is not None else (_fields_for(cls) if FIELD_ALIASES else {})
 
     def __repr__(self):
         return self.name or f"<{self.cls.name}>"
